@@ -324,22 +324,26 @@ import (
 
 // [att^=val], [att$=val], [att*=val]: "if val is the empty string then the selector does not
 // represent anything"; otherwise (this implementation never matches a blank attribute value)
-// the prefix / suffix / substring test on the attribute value.
+// the prefix / suffix / substring test on the attribute value; with the `i` flag BOTH the attribute
+// value and val are case-folded before the test.
 //@ func attributePrefixMatch$1
 //@   props C05
 //@   nopanic
 //@   ensures[empty-value] val == "" ==> !result
 //@   ensures val != "" && !ignoreCase && strings.TrimSpace(s) != "" ==> result == strings.HasPrefix(s, val)
+//@   ensures[ignore-case] val != "" && ignoreCase && strings.TrimSpace(s) != "" ==> result == strings.HasPrefix(strings.ToLower(s), strings.ToLower(val))
 //@ func attributeSuffixMatch$1
 //@   props C05
 //@   nopanic
 //@   ensures[empty-value] val == "" ==> !result
 //@   ensures val != "" && !ignoreCase && strings.TrimSpace(s) != "" ==> result == strings.HasSuffix(s, val)
+//@   ensures[ignore-case] val != "" && ignoreCase && strings.TrimSpace(s) != "" ==> result == strings.HasSuffix(strings.ToLower(s), strings.ToLower(val))
 //@ func attributeSubstringMatch$1
 //@   props C05
 //@   nopanic
 //@   ensures[empty-value] val == "" ==> !result
 //@   ensures val != "" && !ignoreCase && strings.TrimSpace(s) != "" ==> result == strings.Contains(s, val)
+//@   ensures[ignore-case] val != "" && ignoreCase && strings.TrimSpace(s) != "" ==> result == strings.Contains(strings.ToLower(s), strings.ToLower(val))
 
 //@ func matchInsensitiveValue
 //@   props C05
@@ -352,6 +356,7 @@ import (
 //@   props C05
 //@   nopanic
 //@   ensures !ignoreCase ==> result == (s == val || (len(s) > len(val) && s[len(val)] == '-' && s[:len(val)] == val))
+//@   ensures[ignore-case] ignoreCase ==> result == (strings.EqualFold(s, val) || (len(s) > len(val) && s[len(val)] == '-' && strings.EqualFold(s[:len(val)], val)))
 
 // membership in an ASCII set is a function of the set (never mutated after init) and the byte
 //@ func (*asciiSet).contains
